@@ -217,10 +217,14 @@ type Snap struct {
 	Meta  raft.SnapshotMetadata
 	Data  []byte
 	Local bool // written by this node's own state machine (not received)
+	Seq   int  // creation order (the file-backed storage names a snapshot after the time NewSnapshotFile was called)
 }
 
 type SnapDisk struct {
-	Snaps []*Snap // closed snapshots, oldest first
+	// closed snapshots ordered as the file-backed storage orders them: by
+	// creation, not by completion ("most recent" is the last one)
+	Snaps   []*Snap
+	NextSeq int
 }
 
 type MemSnapStore struct {
@@ -237,6 +241,7 @@ type MemSnapFile struct {
 	writing bool
 	closed  bool
 	local   bool
+	seq     int
 }
 
 func (s *MemSnapStore) hook(op string, phase int) {
@@ -247,7 +252,8 @@ func (s *MemSnapStore) hook(op string, phase int) {
 
 func (s *MemSnapStore) NewSnapshotFile(idx, term uint64, conf []byte) (raft.SnapshotFile, error) {
 	s.hook("snap.new", 0)
-	f := &MemSnapFile{store: s, writing: true, meta: raft.SnapshotMetadata{LastIncludedIndex: idx, LastIncludedTerm: term, Configuration: append([]byte(nil), conf...)}}
+	s.Disk.NextSeq++
+	f := &MemSnapFile{store: s, writing: true, seq: s.Disk.NextSeq, meta: raft.SnapshotMetadata{LastIncludedIndex: idx, LastIncludedTerm: term, Configuration: append([]byte(nil), conf...)}}
 	s.hook("snap.new", 1)
 	return f, nil
 }
@@ -318,7 +324,16 @@ func (f *MemSnapFile) Close() error {
 	}
 	if f.writing {
 		f.store.hook("snap.close", 0)
-		f.store.Disk.Snaps = append(f.store.Disk.Snaps, &Snap{Meta: f.meta, Data: append([]byte(nil), f.buf...), Local: f.local})
+		sn := &Snap{Meta: f.meta, Data: append([]byte(nil), f.buf...), Local: f.local, Seq: f.seq}
+		snaps := f.store.Disk.Snaps
+		k := len(snaps)
+		for k > 0 && snaps[k-1].Seq > sn.Seq {
+			k--
+		}
+		snaps = append(snaps, nil)
+		copy(snaps[k+1:], snaps[k:])
+		snaps[k] = sn
+		f.store.Disk.Snaps = snaps
 		f.closed = true
 		f.store.hook("snap.close", 1)
 		return nil
